@@ -5,7 +5,7 @@ SPEC = {
     "required_theorems": [
         "crc32_check_value", "from_bytes_checks_crc", "address_from_bytes_checks_crc", "from_base58_checks_crc", "mismatch_rejected",
         "byron_roundtrip_cbor", "byron_roundtrip_base58", "payload_bit_flip_rejected", "checksum_corruption_rejected",
-        "crc32_detects_single_bit_errors",
+        "crc32_detects_single_bit_errors", "payload_roundtrip", "decode_of_from_decoded",
     ],
     "streams": [{"name": "byron", "quick": 400, "thorough": 12000}],
     "rule": "per case: `build` of a random AddressPayload (root 28 bytes, address type in {0,1,2,3,23,24,255,256,65536,2^32-1}, 0..3 "
@@ -29,7 +29,7 @@ SPEC = {
         "base58 decode of a string with more than 132 leading '1's and nothing else (index underflow in the crate) is outside the generator",
         "Model/Minicbor.lean agrees with minicbor 0.26.5 (stream `minicbor`, C03)",
     ],
-    "explanation": "self-tests on the pallas worktree: (break) compare the checksum with `>` instead of `!=` -> VIOLATION crc-unchecked; (break) "
-                   "parse_type_8 back to plain minicbor::decode -> VIOLATION crc-unchecked entry=Address::from_bytes; (harmless) local `let c = "
-                   "CRC.checksum(..)` hoisted -> quiet.",
+    "explanation": "self-tests run on the pallas worktree (then reverted): (break) checksum compared with `>` instead of `!=` -> exit 1, VIOLATION replay "
+                   "byron-viol-crc-unchecked entry=ByronAddress::from_bytes (accepted payload .. with crc 3283002); (harmless) checksum hoisted into a "
+                   "local -> exit 0, quiet; unchanged tree -> exit 0 with the KNOWN-FINDING line.",
 }
